@@ -186,6 +186,7 @@ Proof.
   assert (Hlim : LUA_MAXSIZE < ALLOC_LIMIT) by (vm_compute; reflexivity).
   unfold u64. unfold LUA_MAXSIZE, two64 in *.
   destruct (Z.eqb_spec (n * slen s) 0); [nia|].
+  destruct (Z.ltb_spec (n * slen s) ((n * slen s + 1) mod 18446744073709551616)); cbn [negb]; [|lia].
   destruct (Z.eqb_spec ((n * slen s + 1) mod 18446744073709551616) 0); [lia|].
   destruct (Z.ltb_spec ALLOC_LIMIT (n * slen s)); [lia|].
   destruct (Z.ltb_spec (n * slen s) (n * slen s)); [lia|]. reflexivity.
@@ -222,41 +223,55 @@ Proof.
   unfold nl_create.
   rewrite (u64_small (P - slen sep + 1)) by (unfold LUA_MAXSIZE, two64 in *; lia).
   destruct (Z.eqb_spec (P - slen sep) 0); [lia|].
+  destruct (Z.ltb_spec (P - slen sep) (P - slen sep + 1)); cbn [negb]; [|lia].
   destruct (Z.eqb_spec (P - slen sep + 1) 0); [lia|].
   destruct (Z.ltb_spec ALLOC_LIMIT (P - slen sep)); [lia|].
   rewrite Z.ltb_irrefl. reflexivity.
 Qed.
 
-(* memory safety of rep (after b10c461).  The full statement is still false at exactly one size:
-   n * s.size = 2^64 - 1 passes the new assert, and string.create(2^64-1) asks the allocator for
-   size + 1 = 0 bytes, gets nilptr without a panic and writes the terminator through it *)
-Definition rep_memory_safe : Prop :=
-  forall s n, in_i64 n -> slen s <= maxint -> nl_rep s n <> Unsafe.
-
-Lemma rep_memory_safe_refuted : ~ rep_memory_safe.
+(* memory safety of string.rep (after b10c461 and c3dc3fb): the multiplication cannot wrap any more, and
+   string.create rejects the one size whose terminator would not fit *)
+Lemma create_never_unsafe size : 0 <= size -> nl_create size <> Unsafe.
 Proof.
-  intros H. apply (H [97; 98; 99] 6148914691236517205); vm_compute; intuition congruence.
+  intros H. unfold nl_create, u64, two64.
+  destruct (size =? 0); [discriminate|].
+  destruct (Z.ltb_spec size ((size + 1) mod 18446744073709551616)); cbn [negb]; [|discriminate].
+  destruct (Z.eqb_spec ((size + 1) mod 18446744073709551616) 0); [lia|].
+  destruct (ALLOC_LIMIT <? size); discriminate.
 Qed.
 
-(* the witness is an input on which reference Lua raises "resulting string too large" *)
-Lemma rep_refuted_witness_lua_errs : lua_rep [97; 98; 99] 6148914691236517205 [] = LErr.
-Proof. vm_compute. reflexivity. Qed.
-
-(* every other size is safe: the multiplication can no longer wrap *)
-Lemma rep_memory_safe_partial s n : 0 <= n -> n * slen s <> two64 - 1 -> nl_rep s n <> Unsafe.
+Lemma rep_memory_safe s n : nl_rep s n <> Unsafe.
 Proof.
-  intros Hn Hne. pose proof (slen_nonneg s) as H0. unfold nl_rep.
+  pose proof (slen_nonneg s) as H0. unfold nl_rep.
   destruct (Z.leb_spec n 0); [discriminate|]. destruct (n =? 1); [discriminate|].
   destruct (slen s =? 0); [discriminate|].
   destruct (Z.ltb_spec ((two64 - 1) / n) (slen s)) as [|Hle]; [discriminate|].
   assert (Hprod : n * slen s <= two64 - 1).
   { pose proof (Z.mul_div_le (two64 - 1) n ltac:(lia)). nia. }
   assert (Hu : u64 (n * slen s) = n * slen s) by (unfold u64; apply Z.mod_small; nia).
-  rewrite Hu. unfold nl_create.
-  destruct (n * slen s =? 0); [discriminate|].
-  assert (Hu2 : u64 (n * slen s + 1) = n * slen s + 1) by (unfold u64; apply Z.mod_small; lia).
-  rewrite Hu2. destruct (Z.eqb_spec (n * slen s + 1) 0); [lia|].
-  destruct (ALLOC_LIMIT <? n * slen s); [discriminate|].
+  rewrite Hu.
+  pose proof (create_never_unsafe (n * slen s) ltac:(nia)) as Hc.
+  destruct (nl_create (n * slen s)); [|discriminate|contradiction].
+  rewrite Z.ltb_irrefl. discriminate.
+Qed.
+
+Lemma rep_sep_memory_safe s n sep : slen s <= maxint -> slen sep <= maxint -> nl_rep_sep s n sep <> Unsafe.
+Proof.
+  intros Hs Hp. pose proof (slen_nonneg s) as H0. pose proof (slen_nonneg sep) as H1. unfold nl_rep_sep.
+  destruct (Z.leb_spec n 0); [discriminate|]. destruct (Z.eqb_spec n 1); [discriminate|].
+  assert (Hps : u64 (slen s + slen sep) = slen s + slen sep).
+  { unfold u64. apply Z.mod_small. unfold maxint, two63, two64 in *. lia. }
+  rewrite Hps. destruct (Z.leb_spec (slen s + slen sep) 0); [discriminate|].
+  destruct (Z.leb_spec (slen s) (slen s + slen sep)); [|lia].
+  destruct (Z.leb_spec (slen s + slen sep) ((two64 - 1) / n)) as [Hle|]; cbn [andb negb]; [|discriminate].
+  assert (Hprod : n * (slen s + slen sep) <= two64 - 1).
+  { pose proof (Z.mul_div_le (two64 - 1) n ltac:(lia)). nia. }
+  set (P := n * (slen s + slen sep)) in *.
+  assert (HP : slen sep <= P) by (subst P; nia).
+  rewrite (u64_small P) by (unfold two64 in *; lia).
+  rewrite (u64_small (P - slen sep)) by (unfold two64 in *; lia).
+  pose proof (create_never_unsafe (P - slen sep) ltac:(lia)) as Hc.
+  destruct (nl_create (P - slen sep)); [|discriminate|contradiction].
   rewrite Z.ltb_irrefl. discriminate.
 Qed.
 
